@@ -858,7 +858,128 @@ def replay_parseseq(case):
     return {"reproduced": bool(failed), "failed": failed, "detail": "; ".join(failed)[:500] or "ok"}
 
 
-REPLAYERS = {'chunked': replay_chunked, 'sockread': replay_sockread, 'parseseq': replay_parseseq, 'roundtrip': replay_roundtrip, 'labelopt': replay_labelopt, 'crcseq': replay_crcseq, 'crc': replay_crc, 'construct': replay_construct, 'stream': replay_stream, 'socket': replay_stream, 'parse': replay_parse}
+def corpus_frames():
+    """valid frames of a dozen message families, built by the independent layout walker (seeded)"""
+    import random
+    from . import structs
+    rnd = random.Random(20261004)
+    out = []
+    specs = [("1005", dict(mode=('uniform', 1))), ("1004", dict(mode=('uniform', 2))), ("1230", dict(flags=5)), ("1029", dict(mode=('uniform', 3))),
+             ("1077", dict(nsat=2, nsig=2, cellmask=3, maskmode='value', seed=1)), ("1124", dict(nsat=1, nsig=2, cellmask='ones', maskmode='value', seed=2)),
+             ("1059", dict(mode=('uniform', 2))), ("4076_025", dict(mode=('uniform', 1))), ("4076_201", dict(harm=(0, 2, 1))), ("1019", dict(mode=('uniform', 1)))]
+    for ident, st in specs:
+        try:
+            p, _ = structs.concrete_payload(ident, structs.chooser(st), rnd)
+        except Exception:  # noqa
+            continue
+        f = b"\xd3" + len(p).to_bytes(2, "big") + p
+        out.append(f + crc24q_ref(f).to_bytes(3, "big"))
+    p = bytes.fromhex("fe800100")
+    f = b"\xd3" + len(p).to_bytes(2, "big") + p
+    out.append(f + crc24q_ref(f).to_bytes(3, "big"))
+    return out
+
+
+def replay_tables(case):
+    import copy
+    import pyrtcm.rtcmtypes_core as tc
+    import pyrtcm.rtcmtypes_get as tg
+    import pyrtcm.rtcmtypes_get_msm as tm
+    import pyrtcm.rtcmtypes_get_igs as ti
+    import pyrtcm.rtcmtables as tt
+    from pyrtcm.rtcmreader import RTCMReader
+
+    def snap():
+        return {(m.__name__, k): copy.deepcopy(v) for m in (tc, tg, tm, ti, tt) for k, v in vars(m).items()
+                if isinstance(v, (dict, list, tuple, set)) and not k.startswith("__")}
+    base = snap()
+    for f in corpus_frames() + [bytes.fromhex(x) for x in case.get('frames', [])]:
+        for v in (1, 0):
+            try:
+                RTCMReader.parse(f, validate=v)
+            except Exception:  # noqa
+                pass
+    cur = snap()
+    ch = sorted(f"{m}.{k}" for (m, k) in base if cur.get((m, k)) != base[(m, k)])
+    return {"reproduced": bool(ch), "failed": ch, "detail": ("tables modified by parsing: " + ", ".join(ch[:5])) if ch else "ok"}
+
+
+THREAD_SCRIPT = r'''
+import sys, threading, json
+sys.setswitchinterval(1e-6)
+from pyrtcm.rtcmreader import RTCMReader
+frames = [bytes.fromhex(x) for x in json.loads(sys.argv[1])]
+N = 8
+bar = threading.Barrier(N)
+res = [None] * N
+def work(i):
+    bar.wait()
+    out = []
+    for rep in range(3):
+        for f in frames:
+            try:
+                m = RTCMReader.parse(f)
+                out.append(["msg", m.identity, {k: repr(v) for k, v in m.__dict__.items() if not k.startswith("_")}])
+            except Exception as e:
+                out.append(["exc", type(e).__name__, str(e)[:80]])
+    res[i] = out
+ts = [threading.Thread(target=work, args=(i,)) for i in range(N)]
+[t.start() for t in ts]; [t.join() for t in ts]
+seq = []
+for f in frames:
+    try:
+        m = RTCMReader.parse(f)
+        seq.append(["msg", m.identity, {k: repr(v) for k, v in m.__dict__.items() if not k.startswith("_")}])
+    except Exception as e:
+        seq.append(["exc", type(e).__name__, str(e)[:80]])
+print("THREADS " + json.dumps({"threads": res, "after": seq}))
+'''
+
+
+def replay_threads(case):
+    """concurrent parses in fresh interpreters (cold start, minimal switch interval) versus the independent oracle"""
+    import subprocess
+    import sys
+    frames = corpus_frames()
+    exp = []
+    for f in frames:
+        ident, e = expected_attrs(f[3:-3])
+        if isinstance(e, dict):
+            exp.append(["msg", ident, {k: v for k, v in e.items()}])
+        elif e is None:
+            exp.append(["msg", ident, None])
+        else:
+            exp.append(["exc", None, None])
+    failed = []
+    for attempt in range(int(case.get('attempts', 6))):
+        env = dict(os.environ)
+        env["PYTHONPATH"] = os.pathsep.join(x for x in sys.path if x)
+        p = subprocess.run([sys.executable, "-c", THREAD_SCRIPT, json.dumps([f.hex() for f in frames])], capture_output=True, text=True, timeout=120, env=env)
+        line = [x for x in p.stdout.splitlines() if x.startswith("THREADS ")]
+        if not line:
+            failed.append(f"attempt {attempt}: no result ({p.stderr[-200:]})")
+            break
+        r = json.loads(line[0][8:])
+        for who, outs in [(f"thread {i}", o) for i, o in enumerate(r['threads'])] + [("sequential parse after the threads", r['after'])]:
+            for j, o in enumerate(outs):
+                e = exp[j % len(frames)]
+                if o[0] != e[0] or (e[1] is not None and o[0] == "msg" and o[1] != e[1]):
+                    failed.append(f"attempt {attempt}, {who}, frame {j % len(frames)}: outcome {o[:2]} expected {e[:2]}")
+                elif o[0] == "msg" and e[2] is not None:
+                    want = {k: repr(v) for k, v in e[2].items() if not (isinstance(v, tuple) and v and v[0] in ('prn', 'sig'))}
+                    diff = [k for k in want if o[2].get(k) != want[k]]
+                    if diff:
+                        failed.append(f"attempt {attempt}, {who}, frame {j % len(frames)}: attribute {diff[0]} = {o[2].get(diff[0])} expected {want[diff[0]]}")
+                if len(failed) > 3:
+                    break
+            if failed:
+                break
+        if failed:
+            break
+    return {"reproduced": bool(failed), "failed": failed[:4], "detail": "; ".join(failed[:3])[:500] or "ok (no interference observed)"}
+
+
+REPLAYERS = {'tables': replay_tables, 'threads': replay_threads, 'chunked': replay_chunked, 'sockread': replay_sockread, 'parseseq': replay_parseseq, 'roundtrip': replay_roundtrip, 'labelopt': replay_labelopt, 'crcseq': replay_crcseq, 'crc': replay_crc, 'construct': replay_construct, 'stream': replay_stream, 'socket': replay_stream, 'parse': replay_parse}
 
 
 def replay(case):
